@@ -487,3 +487,5 @@ def check(run, prog):
     rule_macro_lookup(run, prog)             # R-14.7
     from .c14_after_endif import rule_after_endif
     rule_after_endif(run, prog)              # R-14.8
+    from .c14_history import rule_history_append_only
+    rule_history_append_only(run, prog)      # R-14.9
